@@ -55,6 +55,14 @@ Theorem C08_old_update_deadlocks :
 Proof. exact old_update_deadlocks. Qed.
 Print Assumptions C08_old_update_deadlocks.
 
+(** What the ticker automaton takes for granted about the code, checked on the generated table:
+    Ticker::stop = lock Stop, set the flag, unlock, notify_one; Ticker::drop = stop, then join;
+    the ticker's condvar wait is the tail of its loop body and holds only Stop; every
+    finish*/abandon* ends with: release the bar state, then stop the ticker under the slot lock. *)
+Theorem C08_stop_protocol_generated : stop_protocol_ok all_footprints ticker_body = true.
+Proof. exact generated_stop_protocol. Qed.
+Print Assumptions C08_stop_protocol_generated.
+
 (** Ticker lifecycle (automaton of TickerControl::run in an arbitrary environment; the answer of
     the time-out oracle is an argument of every ticker step, so the statements hold for every
     interval).  Once the stop flag is set - by disable_steady_tick / enable_steady_tick
